@@ -409,6 +409,8 @@ def c10_units(tier, seed):
     for Y in years:
         for m in range(1, 13):
             for sect in (1, 2):
+                if q and sect == 2 and m != 2:
+                    continue  # a sect-2 unit costs minutes: quick keeps the Lichun month only
                 for base in ((Y - 3,) if q else (Y - 3, 1900)):
                     us.append(dict(id=f"C10a[Y={Y},m={m},sect={sect},base={base},win=1]", harness="calendar.VH_C10_Reverse",
                                    params={"Y": Y, "SECT": sect, "BASE": base, "WIN": 1}, concrete={"v_m": m}))
@@ -418,6 +420,6 @@ def c10_units(tier, seed):
     return us
 
 
-PROPS["C10"] = dict(units=c10_units, bounds_text="every second of the three days around the Jie of each month of the listed years (quick: 2024; thorough: 1990, 2017, 2020, 2021, 2024), both day-boundary conventions, base year = year-3 (thorough also the default 1900); thorough adds the remaining days of the month for 2020/2024 under sect 1; candidate-year loop unwound concretely (the clock's current year is read from the host)",
+PROPS["C10"] = dict(units=c10_units, bounds_text="every second of the three days around the Jie of each month of the listed years (quick: 2024; thorough: 1990, 2017, 2020, 2021, 2024), base year = year-3 (thorough also the default 1900); quick: early-rat convention for all 12 months and the late-rat convention for February; thorough: both conventions for every month; thorough adds the remaining days of the month for 2020/2024 under sect 1; candidate-year loop unwound concretely (the clock's current year is read from the host)",
                     outside="years not listed; the days away from the Jie in quick; time.Now() beyond the host clock's year",
                     unit_timeout_ms={"quick": 1500000, "thorough": 3600000})
